@@ -41,14 +41,13 @@ func (eval Evaluator) ModDown(levelQ, levelP int, ctQP *Element[ringqp.Poly], ct
 				eval.BasisExtender.ModDownQPtoQNTT(levelQ, levelP, ctQP.Value[0].Q, ctQP.Value[0].P, ct.Value[0])
 				eval.BasisExtender.ModDownQPtoQNTT(levelQ, levelP, ctQP.Value[1].Q, ctQP.Value[1].P, ct.Value[1])
 			} else {
-				// NTT -> INTT
-				ringQP := eval.params.RingQP().AtLevel(levelQ, levelP)
+				// NTT -> INTT: the division is done in the NTT domain and its result taken out of it
+				// (ctQP is an input: it is not transformed in place).
+				eval.BasisExtender.ModDownQPtoQNTT(levelQ, levelP, ctQP.Value[0].Q, ctQP.Value[0].P, ct.Value[0])
+				eval.BasisExtender.ModDownQPtoQNTT(levelQ, levelP, ctQP.Value[1].Q, ctQP.Value[1].P, ct.Value[1])
 
-				ringQP.INTTLazy(ctQP.Value[0], ctQP.Value[0])
-				ringQP.INTTLazy(ctQP.Value[1], ctQP.Value[1])
-
-				eval.BasisExtender.ModDownQPtoQ(levelQ, levelP, ctQP.Value[0].Q, ctQP.Value[0].P, ct.Value[0])
-				eval.BasisExtender.ModDownQPtoQ(levelQ, levelP, ctQP.Value[1].Q, ctQP.Value[1].P, ct.Value[1])
+				ringQP.RingQ.INTT(ct.Value[0], ct.Value[0])
+				ringQP.RingQ.INTT(ct.Value[1], ct.Value[1])
 			}
 		} else {
 			if ct.IsNTT {
@@ -68,8 +67,8 @@ func (eval Evaluator) ModDown(levelQ, levelP int, ctQP *Element[ringqp.Poly], ct
 		if ctQP.IsNTT {
 			if ct.IsNTT {
 				// NTT -> NTT
-				ctQP.Value[0].Q.CopyLvl(levelQ, ct.Value[0])
-				ctQP.Value[1].Q.CopyLvl(levelQ, ct.Value[1])
+				ct.Value[0].CopyLvl(levelQ, ctQP.Value[0].Q)
+				ct.Value[1].CopyLvl(levelQ, ctQP.Value[1].Q)
 			} else {
 				// NTT -> INTT
 				ringQP.RingQ.INTT(ctQP.Value[0].Q, ct.Value[0])
@@ -83,8 +82,8 @@ func (eval Evaluator) ModDown(levelQ, levelP int, ctQP *Element[ringqp.Poly], ct
 
 			} else {
 				// INTT -> INTT
-				ctQP.Value[0].Q.CopyLvl(levelQ, ct.Value[0])
-				ctQP.Value[1].Q.CopyLvl(levelQ, ct.Value[1])
+				ct.Value[0].CopyLvl(levelQ, ctQP.Value[0].Q)
+				ct.Value[1].CopyLvl(levelQ, ctQP.Value[1].Q)
 			}
 		}
 	}
